@@ -366,6 +366,34 @@ func (ex *Exec) intrinsic(f *ssa.Function) intrinsicFn {
 			s.assume(Not(Eq(ITag(c), IntLit(0))))
 			return callOut{v: TupleV{Scalar{c}, FuncV{Ref: ex.newRef(s)}}}
 		}
+	case "golang.org/x/sync/errgroup.WithContext":
+		return func(ex *Exec, s *State, instr ssa.Instruction, args []Val) callOut {
+			// trusted (A-ERRGROUP): a new group and a derived context (non-nil)
+			c := s.declare(ex.g.fresh("gctx"), SIface)
+			ex.assumeWF(s, c, nil)
+			s.assume(Not(Eq(ITag(c), IntLit(0))))
+			r := ex.newRef(s)
+			var root types.Type = types.Typ[types.Int]
+			if v, ok := instr.(ssa.Value); ok {
+				if tu, ok := v.Type().(*types.Tuple); ok && tu.Len() == 2 {
+					if p, ok := tu.At(0).Type().Underlying().(*types.Pointer); ok {
+						root = p.Elem()
+					}
+				}
+			}
+			return callOut{v: TupleV{PtrV{Base: r, Root: root}, Scalar{c}}}
+		}
+	case "net.Dial":
+		return func(ex *Exec, s *State, instr ssa.Instruction, args []Val) callOut {
+			// trusted (A-IO): a connection or an error
+			c := s.declare(ex.g.fresh("conn"), SIface)
+			ex.assumeWF(s, c, nil)
+			e := s.declare(ex.g.fresh("derr"), SIface)
+			ex.assumeWF(s, e, nil)
+			s.assume(Implies(Eq(ITag(e), IntLit(0)), Not(Eq(ITag(c), IntLit(0)))))
+			ex.usedAssume["A-IO: net.Dial returns a connection or an error"] = true
+			return callOut{v: TupleV{Scalar{c}, Scalar{e}}}
+		}
 	case "bytes.Split":
 		return func(ex *Exec, s *State, instr ssa.Instruction, args []Val) callOut {
 			// trusted (A-SPLIT): a slice of sub-slices with one part more than
